@@ -263,7 +263,7 @@ def scenarios(tier):
                "expect": {"kind": "refuse", "scan": "arp", "target": target([0, 0, 0, 0], 0)}})
     # 9p. addresses on standard input x more than 200 port ranges: the list is read again for every port of every pass
     sports = list(range(2000, 2201))
-    saddrs = [a(d) for d in range(1, 25)]
+    saddrs = [a(d) for d in range(1, 41)]
     spairs = [{"ip": ip, "port": p} for ip in saddrs for p in sports]
     sc.append({"name": "tcp-stdin-chunked", "args": ["tcp", "syn", "--json", "-i", "vfw0", "-f", "-", "-p", ",".join(map(str, sports))] + COMMON + ["--exit-delay", "300ms"], "files": {"empty": ""},
                "stdin": "".join('{"ip":"%s"}\n' % ".".join(map(str, ip)) for ip in saddrs), "maxMs": 20000,
@@ -291,8 +291,8 @@ def scenarios(tier):
                "inject": [{"bytes": tcp_reply(a(1), 80, 0x12), "afterProbe": 1, "delayMs": 2500}],
                "expect": packet_expect("tcpsyn", target(a(1), 32, [rng(80, 80)]), [[rng(80, 80)]], [1], 3000)})
     # 9v. a rate below one packet per second
-    sc.append({"name": "arp-subpps-rate", "args": ["arp", "--json", "--rate", "9/10s", "--exclude", "{dir}/rexcl", "--exit-delay", "300ms", "10.9.3.0/28"], "files": {"rexcl": "10.9.3.12/30\n"}, "maxMs": 30000,
-               "expect": packet_expect("arp", target(net30, 28, exclude=[{"ip": [10, 9, 3, 12], "len": 30}]), [[]], [12], 300, rate={"n": 9, "winMs": 10000, "winNs": 0}, srcip=[10, 9, 0, 1], dstmac=[255] * 6)})
+    sc.append({"name": "arp-subpps-rate", "args": ["arp", "--json", "--rate", "9/10s", "--exclude", "{dir}/rexcl", "--exit-delay", "300ms", "10.9.3.0/28"], "files": {"rexcl": "10.9.3.14/31\n"}, "maxMs": 30000,
+               "expect": packet_expect("arp", target(net30, 28, exclude=[{"ip": [10, 9, 3, 14], "len": 31}]), [[]], [14], 300, rate={"n": 9, "winMs": 10000, "winNs": 0}, srcip=[10, 9, 0, 1], dstmac=[255] * 6)})
     # 10. targets that are not IPv4 are refused before anything is sent
     for i, t in enumerate(["::1", "::ffff:10.9.3.1/126", "fe80::1/64", "10.9.3.1/33", "10.9.3"]):
         sc.append({"name": "refuse-%d" % i, "args": ["tcp", "syn", "--json", "-p", "80"] + COMMON + ["--exit-delay", "300ms", t], "files": {"empty": ""}, "maxMs": 6000,
